@@ -91,7 +91,7 @@ def run(rep):
     rep.rule('R19.c', 'Reservoir: count once per add; appends and indexed stores entailed in-bounds; resize keeps len<=cap')
     # every group runs even when another one cannot be analysed (its gap is reported as ANALYSIS-ERROR at the end)
     rep.rule('R19.d', 'the StatsMiddleware instance the report reads / resets is the instance the routes run')
-    for group in (_request_records_once, _report_before_reset, _reported_count, _report_read_only, _stats_app_routes, _reservoir_add, _reservoir_resize,
+    for group in (_request_records_once, _report_before_reset, _reported_count, _report_read_only, _report_complete, _stats_app_routes, _reservoir_add, _reservoir_resize,
                   _reservoir_init, _reservoir_rest, _report_reads_running_instance):
         _guarded(rep, group, rep, repo, st)
     for rule, n in (('R19.a', 8), ('R19.b', 6), ('R19.c', 12), ('R19.d', 5)):
@@ -147,6 +147,37 @@ def _request_records_once(rep, repo, st):
     ok = len(keys) == 2 and keys[0] == '_route' and norm(cur) == 'self.route_hits'
     rep.check('R19.a', fkey(rq, 'key order'), ok, 'hit is filed under self.route_hits[_route][%s]' % (keys[1] if len(keys) == 2 else '?') if ok else
               'hit is not filed under self.route_hits[_route][<status>]: %s' % short(recv), st, add)
+    # the cell exists when the hit is filed: a receiver spelt with plain subscripts relies on the table making the per-route
+    # mapping and the per-status reservoir on first use (defaultdict factories, two levels, ending in a reservoir class)
+    if ok and isinstance(recv, ast.Subscript) and isinstance(recv.value, ast.Subscript):
+        t = _type_of(repo, rq, cur, stmt_of(st, add), look=False)
+        made = t is not None and t[0] == 'map' and t[1] is not None and t[1][0] == 'map' and t[1][1] is not None and t[1][1][0] == 'inst' \
+            and repo.find_method(t[1][1][1], 'add') is not None
+        if t is None:
+            # what is bound to self.route_hits: a plain dict never makes a cell; anything else is not understood
+            vals = [v for m in (rq.cls.methods.values() if rq.cls is not None else []) for s_ in stmts_of(m.node) for tg, v in _assign_pairs(s_)
+                    if norm(tg) == norm(cur)]
+            def plain_map(v):
+                return isinstance(v, (ast.Dict, ast.DictComp)) or (isinstance(v, ast.Call) and call_name(v) in ('dict', 'OrderedDict'))
+
+            def no_cells(v):
+                """a mapping that, at the first or at the second level, is a plain one"""
+                if plain_map(v):
+                    return True
+                if isinstance(v, ast.Call) and call_tail(v) == 'defaultdict' and v.args:
+                    f = v.args[0]
+                    if isinstance(f, ast.Name) and f.id in ('dict', 'list', 'set', 'int', 'float', 'str', 'OrderedDict'):
+                        return True
+                    if isinstance(f, ast.Lambda) and (plain_map(f.body) or isinstance(f.body, (ast.List, ast.Set, ast.Constant))):
+                        return True
+                return False
+            plain = [v for v in vals if no_cells(v)]
+            if not plain:
+                raise AnalysisError('StatsMiddleware.request: cannot tell whether %s creates the cell %s on first use' % (norm(cur), short(recv)))
+        rep.check('R19.a', fkey(rq, 'cell exists'), made,
+                  'the table makes the per-route mapping and the per-status reservoir on first use (%s)' % t[1][1][1].name if made else
+                  'the hit is filed under %s with plain subscripts, but the table bound to %s does not create missing cells (no factories down to a '
+                  'reservoir): the first request of a route raises KeyError inside the middleware and is not counted' % (short(recv), norm(cur)), st, add)
     # the table is looked up when the hit is recorded: reset() re-binds self.route_hits, so a table fetched before
     # next() ran may be an orphan by the time the hit is added (the request would be counted nowhere)
     readers = [s_ for s_ in [stmt_of(st, add)] + add_via[id(add)]
@@ -307,6 +338,25 @@ def _report_before_reset(rep, repo, st):
         cfg_rs.must_pass(cfg_rs.nodes_of(asg[0][0]), cfg_rs.entry, cfg_rs.exit)
     rep.check('R19.b', fkey(rs, 'self.route_hits'), ok, 'reset() rebinds route_hits to a freshly constructed mapping' if ok else
               'reset() does not rebind route_hits to a fresh mapping', st, rs.node)
+    # counting starts again from zero: the new table is built empty and reset() puts nothing into it
+    if len(asg) == 1:
+        made = Ls.resolve(asg[0][1], asg[0][0])
+        seeded = None
+        if isinstance(made, ast.Call):
+            extra = list(made.args[1:] if call_tail(made) == 'defaultdict' else made.args) + [k.value for k in made.keywords]
+            if extra:
+                seeded = 'it is built from %s' % short(extra[0])
+        elif isinstance(made, ast.Dict) and made.keys:
+            seeded = 'it is built with entries (%s)' % short(made)
+        elif isinstance(made, ast.DictComp):
+            seeded = 'it is built from %s' % short(made.generators[0].iter)
+        sn_ = _self_name(rs) or 'self'
+        for e in effects.effects_in(rs.node):
+            ch = e.chain or []
+            if len(ch) >= 2 and ch[0] == sn_ and ch[1] == 'route_hits' and not (isinstance(e.node, ast.Assign) and e.node is asg[0][0] and len(ch) == 2) and seeded is None:
+                seeded = 'reset() writes into it (%s)' % short(e.node)
+        rep.check('R19.b', fkey(rs, 'starts empty'), seeded is None, 'the table reset() installs is empty' if seeded is None else
+                  'the table reset() installs does not start empty: %s -- counts from before the reset are carried over' % seeded, st, asg[0][0])
     # every (route, status) cell is a reservoir of its own: the factories of the table construct, they never hand out an object
     # that already exists (one shared reservoir / inner table would add the counts of different routes or statuses together)
     if len(asg) == 1:
@@ -530,6 +580,89 @@ def _report_read_only(rep, repo, st):
                   'computing the report changes nothing in the counters it reads' if bad is None else
                   'the report %s: a read of the statistics changes them, so the counts no longer sum to the requests since the last reset'
                   % bad[1], st, bad[0] if bad is not None else fi.node)
+
+
+def _report_complete(rep, repo, st):
+    """the report shows every (route, status) that has hits: the loops / comprehensions of the report path run over the whole table
+    (not a slice / filtered view), leave early by nothing, and skip an entry only when its table is empty"""
+    start = st.func('get_stats_dict')
+    for fi in _report_path(repo, st, start):
+        L = diffcon.Locals(fi.node, cfg_of(fi))
+        verdicts = []
+
+        def is_map(e, anchor):
+            t = _type_of(repo, fi, e, anchor)
+            return t is not None and t[0] == 'map'
+
+        def whole(it, anchor):
+            """True: ``it`` runs over the whole mapping; False: over a part of it; None: no mapping of the statistics involved"""
+            e = L.resolve(it, anchor) if cfg_of(fi).nodes_of(anchor) else it
+            while isinstance(e, ast.Call) and call_name(e) in ('list', 'tuple', 'sorted', 'iter', 'reversed', 'dict') and e.args:
+                e = e.args[0]
+            if isinstance(e, ast.Call) and isinstance(e.func, ast.Attribute) and e.func.attr in ('items', 'values', 'keys') and not e.args:
+                e = e.func.value
+            if is_map(e, anchor) or (e is not it and is_map(it, anchor)):
+                return True
+            inner = [x for x in ast.walk(e) if x is not e and isinstance(x, (ast.Name, ast.Attribute, ast.Call)) and is_map(x, anchor)]
+            return False if inner else None
+
+        def filter_verdict(test, value_names, key_names, where):
+            """a test deciding whether an entry is shown: fine when it is the truth value of the entry's table"""
+            t = test
+            neg = False
+            while isinstance(t, ast.UnaryOp) and isinstance(t.op, ast.Not):
+                t, neg = t.operand, not neg
+            if isinstance(t, ast.Name) and t.id in value_names:
+                return neg          # ``if rh`` keeps the entries with hits; ``if not rh`` keeps the empty ones
+            names = set(x.id for x in ast.walk(t) if isinstance(x, ast.Name))
+            if names & key_names and not names & value_names:
+                return True         # decided by the key alone: some route / status is left out
+            raise AnalysisError('%s: cannot tell whether %s %s leaves out entries that have hits' % (fi.key, where, short(test)))
+        for n in walk_body(fi.node):
+            gens = n.generators if isinstance(n, (ast.ListComp, ast.SetComp, ast.DictComp, ast.GeneratorExp)) else []
+            anchor = stmt_of(st, n)
+            for g in gens:
+                w = whole(g.iter, anchor)
+                if w is None:
+                    continue
+                names = [x.id for x in ast.walk(g.target) if isinstance(x, ast.Name)]
+                vals, keys = set(names[-1:]), set(names[:-1]) if len(names) > 1 else set()
+                bad = None
+                if w is False:
+                    bad = 'runs over a part of the table only (%s)' % short(g.iter)
+                for i in g.ifs:
+                    if bad is None and filter_verdict(i, vals, keys, 'the filter'):
+                        bad = 'leaves out entries that have hits (if %s)' % short(i)
+                verdicts.append((n, bad))
+            if isinstance(n, ast.For):
+                w = whole(n.iter, n)
+                if w is None:
+                    continue
+                names = [x.id for x in ast.walk(n.target) if isinstance(x, ast.Name)]
+                vals, keys = set(names[-1:]), set(names[:-1]) if len(names) > 1 else set()
+                bad = None
+                if w is False:
+                    bad = 'runs over a part of the table only (%s)' % short(n.iter)
+                for s_ in ast.walk(n):
+                    if bad is not None or not isinstance(s_, (ast.Break, ast.Continue)):
+                        continue
+                    inner_loops = [p for p in _ancestors(st, s_) if isinstance(p, (ast.For, ast.While))]
+                    if not inner_loops or inner_loops[0] is not n:
+                        continue
+                    if isinstance(s_, ast.Break):
+                        bad = 'stops before the end of the table (break)'
+                        continue
+                    cs = [(t, p) for t, p in conds(fi, s_) if any(anc is n for anc in _ancestors(st, t))]
+                    if not cs:
+                        bad = 'skips every entry (continue)'
+                    for t, p in cs:
+                        if bad is None and filter_verdict(t if not p else ast.UnaryOp(op=ast.Not(), operand=t), vals, keys, 'the skip under'):
+                            bad = 'skips entries that have hits (continue under %s%s)' % ('' if p else 'not ', short(t))
+                verdicts.append((n, bad))
+        for i, (node, bad) in enumerate(verdicts):
+            rep.check('R19.b', fkey(fi, 'report covers the table #%d' % (i + 1)), bad is None,
+                      'the loop over the statistics runs over the whole table and leaves out empty entries only' if bad is None else
+                      'the report %s: requests that were counted do not show up, the reported counts no longer sum to the requests served' % bad, st, node)
 
 
 ROUTE_METHODS = {'GET': ('GET',), 'POST': ('POST',), 'PUT': ('PUT',), 'DELETE': ('DELETE',), 'PATCH': ('PATCH',), 'HEAD': ('HEAD',)}
